@@ -121,6 +121,17 @@ def prune_builds(keep):
         pass
 
 
+def build_simple(name, source, opt="-O1", san=None, extra_flags=(), link=()):
+    flags = [opt] + list(extra_flags)
+    lnk = list(link)
+    bname = name
+    if san:
+        flags += ["-fsanitize=" + san, "-fno-omit-frame-pointer", "-g1"]
+        lnk += ["-fsanitize=" + san]
+        bname = name + "-" + san.replace(",", "-")
+    return build_binary(bname, [(os.path.join(HARNESS, source), [], "main")], flags, lnk)
+
+
 def build_dyn(opt="-O1", san=None):
     flags = [opt]
     link = []
